@@ -48,9 +48,7 @@ func (ex *Exec) buildQuery(pc []*Term, goal *Term, cover bool) string {
 	var sb strings.Builder
 	sb.WriteString("(set-option :produce-models true)\n(set-logic ALL)\n")
 	d.print(&sb, false)
-	for _, a := range asserts {
-		sb.WriteString("(assert " + smtRender(a) + ")\n")
-	}
+	smtDefs(&sb, asserts)
 	sb.WriteString("(check-sat)\n(get-model)\n")
 	return sb.String()
 }
@@ -129,6 +127,11 @@ func (ex *Exec) closeFacts(asserts []*Term) []*Term {
 		for _, a := range out[:n] {
 			a.Walk(func(x *Term) {
 				switch x.Op {
+				case "=":
+					if x.Args[0].Sort == SB && !seenApp[x.Key()] {
+						seenApp[x.Key()] = true
+						add(Implies(x, Eq(ex.G.BLen(x.Args[0]), ex.G.BLen(x.Args[1]))))
+					}
 				case "var":
 					if !seenVar[x.Name] {
 						seenVar[x.Name] = true
@@ -190,7 +193,7 @@ func (ex *Exec) closeFacts(asserts []*Term) []*Term {
 	}
 	if len(strcs) > 1 {
 		sort.Slice(strcs, func(i, j int) bool { return strcs[i].Name < strcs[j].Name })
-		out = append(out, &Term{Op: "distinct", Args: strcs, Sort: SBool})
+		out = append(out, mk(&Term{Op: "distinct", Args: strcs, Sort: SBool}))
 	}
 	for _, s := range strcs {
 		if l, ok := ex.G.lens[s.Key()]; ok {
